@@ -387,7 +387,7 @@ int main(int argc, char **argv) {
 	h_fail_printed = 0;
 	if (thorough && !san) { fam_large(large_t, sizeof large_t / sizeof *large_t, shard, nshards); fam_check_large(large_t, sizeof large_t / sizeof *large_t, (shard + 3) % nshards, nshards); }
 	else { fam_large(large_q, sizeof large_q / sizeof *large_q, shard, nshards); fam_check_large(large_q, sizeof large_q / sizeof *large_q, (shard + 3) % nshards, nshards); }
-	if (thorough && !san && shard == nshards - 1 && !h_expired()) fam_sha_huge();
+	if (!san && shard == nshards - 1 && !h_expired()) fam_sha_huge();	// about 4 s: the only input whose bit length needs the high word
 
 	printf("STAT evals=%ld distinct=%ld tiny=%ld oneshot=%ld split=%ld check_iface=%ld sha256=%ld large=%ld zero_length=%ld fails=%ld\n",
 		evals, distinct, n_tiny, n_oneshot, n_split, n_chk, n_sha, n_large, n_zero_len, h_fails);
